@@ -1,11 +1,5 @@
 //! Engine E2 "front": in-process property loops that need no rustc (C11, C12, C15, C16, C18, runtime half of C04).
-mod c04rt;
-mod c11;
-mod c12;
-mod c15;
-mod c16;
-mod c18;
-mod common;
+use front::{c04rt, c11, c12, c15, c16, c18};
 
 fn arg(args: &[String], name: &str) -> Option<String> {
     args.iter().position(|a| a == name).and_then(|i| args.get(i + 1).cloned())
